@@ -26,41 +26,34 @@ theorem accepted_iff (env : Env Net Pat IP) (pol : Policy Net Pat) (a : Answers 
         parseOrResolve env pol a = ⟨joinHostPort text port, !a.hostIsIP, 1⟩ := by
   constructor
   · intro h
-    unfold parseOrResolve at h ⊢
     cases hp : a.providedIsIP with
-    | true => simp [hp] at h
+    | true => simp [parseOrResolve, hp] at h
     | false =>
-      simp only [hp, Bool.false_eq_true, if_false] at h ⊢
       cases hs : a.split with
-      | none => simp [hs] at h
+      | none => simp [parseOrResolve, hp, hs] at h
       | some hp2 =>
         obtain ⟨host, port⟩ := hp2
-        simp only [hs] at h ⊢
         cases hd : isBlocklistedCovertDomain env pol host with
-        | true => simp [hd] at h
+        | true => simp [parseOrResolve, hp, hs, hd] at h
         | false =>
-          simp only [hd, Bool.false_eq_true, if_false] at h ⊢
           cases hk : a.portOk with
-          | false => simp [hk] at h
+          | false => simp [parseOrResolve, hp, hs, hd, hk] at h
           | true =>
-            simp only [hk, Bool.not_true, Bool.false_eq_true, if_false] at h ⊢
             cases hr : a.resolved with
-            | err => simp [hr] at h
-            | nilAddr => simp [hr] at h
+            | err => simp [parseOrResolve, hp, hs, hd, hk, hr] at h
+            | nilAddr => simp [parseOrResolve, hp, hs, hd, hk, hr] at h
             | addr ip zone text =>
               cases ip with
-              | none => simp [hr] at h
+              | none => simp [parseOrResolve, hp, hs, hd, hk, hr] at h
               | some ip =>
-                simp only [hr] at h ⊢
                 cases hb : isBlocklistedCovertAddr env pol ip with
-                | true => simp [hb] at h
+                | true => simp [parseOrResolve, hp, hs, hd, hk, hr, hb] at h
                 | false =>
-                  simp only [hb, Bool.false_eq_true, if_false] at h ⊢
                   by_cases hz : zone = ""
                   · subst hz
-                    simp only [ne_eq, not_true_eq_false, if_false] at h ⊢
-                    exact ⟨host, port, ip, text, rfl, rfl, rfl, rfl, rfl, rfl, rfl⟩
-                  · simp [hz] at h
+                    refine ⟨host, port, ip, text, rfl, rfl, hd, rfl, rfl, hb, ?_⟩
+                    simp [parseOrResolve, hp, hs, hd, hk, hr, hb]
+                  · simp [parseOrResolve, hp, hs, hd, hk, hr, hb, hz] at h
   · rintro ⟨host, port, ip, text, _, _, _, _, _, _, h⟩
     rw [h]
     exact joinHostPort_ne_empty text port
